@@ -131,6 +131,28 @@ Theorem C02_watch_active_is_last_accepted : forall (build : str -> outcome btabl
 Proof. exact watch_active_is_last_accepted_composed. Qed.
 Print Assumptions C02_watch_active_is_last_accepted.
 
+(* WHAT REMAINS of "the newly received configuration is invalid".  The loop skips a candidate - the last
+   good table keeps serving - exactly when the composed NewTable returns an error, and the error is one
+   of: syntax (1-4), weight literal (5), empty prefix / target (6, 7: never from a text, its tokens are
+   non-empty), url.Parse of a target (8), `route weight` without a matching target (9), path glob (10),
+   host glob (11, since c9fb527), a line beyond the scanner (13, since 5dd66bf).  Never a panic.
+   Since /repo d16ce3d the service-derived half of a candidate holds only commands the registry
+   validated one by one (C14 / C01: a registration that cannot be expressed is dropped, it no longer
+   makes the whole text fail), so a rejection now comes from the manual overrides, from a `route weight`
+   that matches nothing, or from a command whose validity depends on the other half (a weight command
+   whose target the other half deleted).  These theorems are about every text, so they did not change. *)
+Theorem C02_rejection_reasons : forall pweight canon glob_ok order text k,
+  full_build pweight canon glob_ok (ring_faithful order) text = Err k -> is_rejection k = true.
+Proof. exact rejection_reasons. Qed.
+Print Assumptions C02_rejection_reasons.
+
+Theorem C02_keeps_last_good_only_on_rejection : forall pweight canon glob_ok order text, perm_order order ->
+  (forall ds, scan_parse pweight text = Ok ds -> Forall route_ok (reached canon glob_ok [] ds)) ->
+  build_opt (full_build pweight canon glob_ok (ring_faithful order)) text = None ->
+  exists k, full_build pweight canon glob_ok (ring_faithful order) text = Err k /\ is_rejection k = true.
+Proof. exact keeps_last_good_only_on_rejection. Qed.
+Print Assumptions C02_keeps_last_good_only_on_rejection.
+
 (* the custom backend: error -> table kept (through SetTable's nil guard), table -> installed *)
 Theorem C02_custom_keeps_last_good : forall cbuild cell ds k,
   cbuild ds = Err k -> custom_step cbuild cell ds = Some cell.
